@@ -156,87 +156,7 @@ func runC14(c *Ctx) {
 	c.checkConstIndexes("O-1c constant indexes into submatch/split results", reached)
 
 	// ---- O-2 body cap ----
-	if rl := p.Const("broker", "readLimit"); rl == nil || rl.Val().ExactString() != "100000" {
-		c.viol("O-2 body cap", "broker.readLimit", "-", "readLimit constant missing or not 100000")
-	} else {
-		c.okTrivial("O-2 body cap", "broker.readLimit == 100000", p.Pos(rl.Pos()), "")
-	}
-	for _, fn := range reached {
-		allInstrs(fn, func(in ssa.Instruction) {
-			fa, ok := in.(*ssa.FieldAddr)
-			if !ok {
-				return
-			}
-			_, f, ok := fieldOfAddr(fa)
-			if !ok || f.Name() != "Body" || f.Pkg() == nil || f.Pkg().Path() != "net/http" {
-				return
-			}
-			key := p.FnName(fn) + " reads Request.Body"
-			if fa.Referrers() == nil {
-				return
-			}
-			for _, r := range *fa.Referrers() {
-				ld, ok := r.(*ssa.UnOp)
-				if !ok {
-					c.viol("O-2 body cap", key, p.instrPos(r), "Request.Body address used other than by a load")
-					continue
-				}
-				for _, u := range *ld.Referrers() {
-					ci, ok := u.(*ssa.Call)
-					if !ok || !isCallTo(ci, "net/http.MaxBytesReader") || ci.Call.Args[1] != ld {
-						if _, dbg := u.(*ssa.DebugRef); dbg {
-							continue
-						}
-						c.viol("O-2 body cap", key, p.instrPos(u), "request body flows to a reader without http.MaxBytesReader")
-						continue
-					}
-					if k, ok := constInt(ci.Call.Args[2]); !ok || k != 100000 {
-						c.viol("O-2 body cap", key, p.instrPos(u), "MaxBytesReader limit is not the constant 100000")
-						continue
-					}
-					// the capped reader is consumed by ReadAll; its error edge answers 4xx and returns
-					var readAll *ssa.Call
-					var findReadAll func(v ssa.Value)
-					findReadAll = func(v ssa.Value) {
-						if v.Referrers() == nil {
-							return
-						}
-						for _, ru := range *v.Referrers() {
-							switch rc := ru.(type) {
-							case *ssa.Call:
-								if isCallTo(rc, "io/ioutil.ReadAll", "io.ReadAll") {
-									readAll = rc
-								}
-							case *ssa.ChangeInterface:
-								findReadAll(rc)
-							case *ssa.MakeInterface:
-								findReadAll(rc)
-							}
-						}
-					}
-					findReadAll(ci)
-					if readAll == nil {
-						c.undecided("O-2 body cap", key, p.instrPos(ci), "capped reader is not consumed by ReadAll: shape not recognised")
-						continue
-					}
-					bad := false
-					for _, e := range errEdges(fn, readAll, 1, false) {
-						if path := escapesWithout(e.To(), func(in ssa.Instruction) bool { return isWriteHeader(in, 400, 499) }); path != nil {
-							bad = true
-							c.viol("O-2 body cap", key, p.instrPos(readAll), "a failed body read can return without a 4xx status", p.pathString(path)...)
-						}
-					}
-					if len(errEdges(fn, readAll, 1, false)) == 0 {
-						bad = true
-						c.viol("O-2 body cap", key, p.instrPos(readAll), "error of the body read is never tested")
-					}
-					if !bad {
-						c.ok("O-2 body cap", key, p.instrPos(ci), "body read through MaxBytesReader(100000); read error answers 4xx on every path")
-					}
-				}
-			}
-		})
-	}
+	c.checkBodyCap(reached)
 
 	// ---- O-3 error mapping after each IPC call ----
 	ipcMethods := map[string]bool{"ProxyPolls": true, "ClientOffers": true, "ProxyAnswers": true, "Debug": true}
@@ -446,6 +366,94 @@ func (c *Ctx) checkLegacyShim(rule string) {
 		}
 	} else {
 		c.undecided(rule, "broker.clientOffers", "-", "anchor does not resolve")
+	}
+
+}
+
+// checkBodyCap: a request body is only ever read through
+// http.MaxBytesReader(w, r.Body, readLimit) and a failed read answers 4xx.
+func (c *Ctx) checkBodyCap(reached []*ssa.Function) {
+	p := c.P
+	if rl := p.Const("broker", "readLimit"); rl == nil || rl.Val().ExactString() != "100000" {
+		c.viol("O-2 body cap", "broker.readLimit", "-", "readLimit constant missing or not 100000")
+	} else {
+		c.okTrivial("O-2 body cap", "broker.readLimit == 100000", p.Pos(rl.Pos()), "")
+	}
+	for _, fn := range reached {
+		allInstrs(fn, func(in ssa.Instruction) {
+			fa, ok := in.(*ssa.FieldAddr)
+			if !ok {
+				return
+			}
+			_, f, ok := fieldOfAddr(fa)
+			if !ok || f.Name() != "Body" || f.Pkg() == nil || f.Pkg().Path() != "net/http" {
+				return
+			}
+			key := p.FnName(fn) + " reads Request.Body"
+			if fa.Referrers() == nil {
+				return
+			}
+			for _, r := range *fa.Referrers() {
+				ld, ok := r.(*ssa.UnOp)
+				if !ok {
+					c.viol("O-2 body cap", key, p.instrPos(r), "Request.Body address used other than by a load")
+					continue
+				}
+				for _, u := range *ld.Referrers() {
+					ci, ok := u.(*ssa.Call)
+					if !ok || !isCallTo(ci, "net/http.MaxBytesReader") || ci.Call.Args[1] != ld {
+						if _, dbg := u.(*ssa.DebugRef); dbg {
+							continue
+						}
+						c.viol("O-2 body cap", key, p.instrPos(u), "request body flows to a reader without http.MaxBytesReader")
+						continue
+					}
+					if k, ok := constInt(ci.Call.Args[2]); !ok || k != 100000 {
+						c.viol("O-2 body cap", key, p.instrPos(u), "MaxBytesReader limit is not the constant 100000")
+						continue
+					}
+					// the capped reader is consumed by ReadAll; its error edge answers 4xx and returns
+					var readAll *ssa.Call
+					var findReadAll func(v ssa.Value)
+					findReadAll = func(v ssa.Value) {
+						if v.Referrers() == nil {
+							return
+						}
+						for _, ru := range *v.Referrers() {
+							switch rc := ru.(type) {
+							case *ssa.Call:
+								if isCallTo(rc, "io/ioutil.ReadAll", "io.ReadAll") {
+									readAll = rc
+								}
+							case *ssa.ChangeInterface:
+								findReadAll(rc)
+							case *ssa.MakeInterface:
+								findReadAll(rc)
+							}
+						}
+					}
+					findReadAll(ci)
+					if readAll == nil {
+						c.undecided("O-2 body cap", key, p.instrPos(ci), "capped reader is not consumed by ReadAll: shape not recognised")
+						continue
+					}
+					bad := false
+					for _, e := range errEdges(fn, readAll, 1, false) {
+						if path := escapesWithout(e.To(), func(in ssa.Instruction) bool { return isWriteHeader(in, 400, 499) }); path != nil {
+							bad = true
+							c.viol("O-2 body cap", key, p.instrPos(readAll), "a failed body read can return without a 4xx status", p.pathString(path)...)
+						}
+					}
+					if len(errEdges(fn, readAll, 1, false)) == 0 {
+						bad = true
+						c.viol("O-2 body cap", key, p.instrPos(readAll), "error of the body read is never tested")
+					}
+					if !bad {
+						c.ok("O-2 body cap", key, p.instrPos(ci), "body read through MaxBytesReader(100000); read error answers 4xx on every path")
+					}
+				}
+			}
+		})
 	}
 
 }
